@@ -35,7 +35,9 @@ RULE = ("seeded histories: an input assembled from segments (numbers up to 18 di
 TRUSTED = ["std::istream::read delivers min(n, remaining) bytes and sets failbit on a short read (modelled in `underflow`)",
            "modelled, not verified: the memcpy of the compaction path of match() is modelled as dropping the consumed prefix of the window"]
 ASSUMPTIONS = ["inputs without NUL bytes for the transparency theorem (NUL inputs are only compared model-vs-code)",
-               "match tokens non-empty, NUL/newline free and no longer than BUF_SIZE; unget only directly after an extracting operation"]
+               "match tokens non-empty, NUL/newline free and no longer than BUF_SIZE; unget only directly after an extracting operation",
+               "the line counter is the 32-bit `unsigned` of this platform: the model keeps a representative modulo 2^32 (fewer than 2^32 line ends per input; "
+               "a put-back of a newline that was never extracted wraps at 0 as in the code — compared model-vs-code by a corpus history on every run)"]
 
 def hexs(bs): return "-" if not bs else "".join("%02x" % b for b in bs)
 
